@@ -94,23 +94,15 @@ Definition lower_of (t : list (str * str)) (k : str) : str :=
 
 Definition case_lower (c : case) : str -> str := lower_of (dpairs (c_lower c)).
 
-(** ** the model's trace *)
-Definition model_trace (c : case) : list frame :=
-  let lower := case_lower c in
-  let alpha := map dec (c_alpha c) in
-  let (r, w) := start_world lower (start_of (c_start c)) in
-  mkFrame r
-    (match nth_error (w_objs w) 0 with
-     | Some d => obj_view lower alpha w d
-     | None => Err IndexError
-     end)
-    (map (obj_items lower w) (w_objs w))
-  :: trace lower alpha w (map op_of (c_ops c)).
-
-Definition agree (c : case) : bool :=
-  list_eqb frame_eqb (model_trace c) (map frame_of_raw (c_obs c)).
-
-(** ** the property *)
+(** ** the declared domain (a condition on the INPUTS of a case only)
+    [start_ok]: the initial values pass Deb822.validate_input and, for a parsed
+    start, the text parses to the listed fields -- otherwise the constructor
+    raises and there is no paragraph to talk about.
+    [hist_ok]: every dump+reparse of the history is applied to a paragraph on
+    which dump-then-parse is the identity, evaluated along the REFERENCE run
+    (for single-line values and plain field names this is a theorem,
+    Props/C09.v no. 5).  Keys, values, object indices and lengths are otherwise
+    unrestricted. *)
 Definition has_linebreak (v : str) : bool := existsb py_islinebreak v.
 
 (** The reference step.  Values containing a line boundary are outside the
@@ -124,6 +116,66 @@ Definition ref_step (lower : str -> str) (w : list items) (x : op) (seen : out) 
   | _, _ => s_step lower w x
   end.
 
+Definition valid_b (kv : str * str) : bool := is_ok (validate_input (snd kv)).
+
+Definition start_ok (s : start) : bool :=
+  match s with
+  | SEmpty => true
+  | SDict its => forallb valid_b its
+  | SParsed text its => items_eqb (parse_text text) its && forallb valid_b its
+  end.
+
+Definition reparse_ok (W : list items) (x : op) : bool :=
+  match x with
+  | OReparse o =>
+      match nth_error W o with
+      | Some d => items_eqb (parse_text (s_dump d)) d
+      | None => true
+      end
+  | _ => true
+  end.
+
+(** whether an assignment is refused is decided by validate_input alone *)
+Definition hint (x : op) : out :=
+  match x with
+  | OSet _ _ v => if is_ok (validate_input v) then RNone else RErr ValueError
+  | _ => RNone
+  end.
+
+Definition spec_next (lower : str -> str) (W : list items) (x : op) : list items :=
+  snd (ref_step lower W x (hint x)).
+
+Fixpoint hist_ok (lower : str -> str) (W : list items) (xs : list op) : bool :=
+  match xs with
+  | [] => true
+  | x :: xs' => reparse_ok W x && hist_ok lower (spec_next lower W x) xs'
+  end.
+
+Definition case_in_domain (c : case) : bool :=
+  start_ok (start_of (c_start c))
+  && hist_ok (case_lower c) (s_start (case_lower c) (start_of (c_start c))) (map op_of (c_ops c)).
+
+(** ** the model's trace *)
+Definition model_frames (lower : str -> str) (alpha : list str) (s : start) (xs : list op) : list frame :=
+  let (r, w) := start_world lower s in
+  mkFrame r
+    (match nth_error (w_objs w) 0 with
+     | Some d => obj_view lower alpha w d
+     | None => Err IndexError
+     end)
+    (map (obj_items lower w) (w_objs w))
+  :: trace lower alpha w xs.
+
+Definition model_trace (c : case) : list frame :=
+  model_frames (case_lower c) (map dec (c_alpha c)) (start_of (c_start c)) (map op_of (c_ops c)).
+
+(** A case outside the declared domain counts as a correspondence failure: the
+    generator has to stay inside, so that [agree c = true -> holds c = true]
+    (Props/C09.v no. 4) applies to every case of a passing run. *)
+Definition agree (c : case) : bool :=
+  case_in_domain c && list_eqb frame_eqb (model_trace c) (map frame_of_raw (c_obs c)).
+
+(** ** the property *)
 Definition ref_frame (lower : str -> str) (alpha : list str) (nb : nat) (x : op) (r : out)
     (w : list items) : frame :=
   mkFrame r
@@ -144,11 +196,12 @@ Fixpoint holds_loop (lower : str -> str) (alpha : list str) (w : list items)
   | _, _ => false
   end.
 
-Definition holds (c : case) : bool :=
-  let lower := case_lower c in
-  let alpha := map dec (c_alpha c) in
-  let w := s_start lower (start_of (c_start c)) in
-  match map frame_of_raw (c_obs c) with
+(** the property on decoded data: [obs] = frame 0 (after construction) followed by
+    one frame per operation *)
+Definition holds_frames (lower : str -> str) (alpha : list str) (s : start) (xs : list op)
+    (obs : list frame) : bool :=
+  let w := s_start lower s in
+  match obs with
   | [] => false
   | f0 :: obs =>
       frame_eqb
@@ -156,8 +209,12 @@ Definition holds (c : case) : bool :=
            (match w with d :: _ => Ok (s_view lower alpha d) | [] => Err IndexError end)
            (map (fun d => Ok d) w))
         f0
-      && holds_loop lower alpha w (map op_of (c_ops c)) obs
+      && holds_loop lower alpha w xs obs
   end.
+
+Definition holds (c : case) : bool :=
+  holds_frames (case_lower c) (map dec (c_alpha c)) (start_of (c_start c)) (map op_of (c_ops c))
+    (map frame_of_raw (c_obs c)).
 
 Definition bad_agree (cs : list case) : list N := bad agree cs.
 Definition bad_holds (cs : list case) : list N := bad holds cs.
